@@ -3,6 +3,8 @@
 //!   expand <defs.rs>            : every `#[cglue_trait] trait`, `cglue_trait_group!`, `cglue_impl_group!`, `#[cglue_forward] trait`
 //!                                 is replaced by what the corresponding macro of cglue-macro would emit; other items pass through.
 //!   cast <Group> <T1,T2> <kind> : prints the function name the cast!/as_ref!/... macros would call (TraitCastGroup)
+mod ir;
+mod grp;
 use quote::ToTokens;
 use syn::*;
 
@@ -12,7 +14,9 @@ fn has_attr(attrs: &[Attribute], name: &str) -> bool {
 
 fn main() {
     let args: Vec<String> = std::env::args().collect();
-    if args.len() < 3 { eprintln!("usage: gen expand <file>"); std::process::exit(2); }
+    if args.len() >= 2 && args[1] == "grp" { std::panic::set_hook(Box::new(|_| {})); grp::run_grp(); return; }
+    if args.len() >= 2 && args[1] == "ir" { std::panic::set_hook(Box::new(|_| {})); ir::run_ir(); return; }
+    if args.len() < 3 { eprintln!("usage: gen expand <file> | gen ir"); std::process::exit(2); }
     match args[1].as_str() {
         "expand" => {
             let src = std::fs::read_to_string(&args[2]).expect("read");
@@ -52,4 +56,19 @@ fn main() {
         }
         _ => { eprintln!("unknown command"); std::process::exit(2); }
     }
+}
+
+#[allow(dead_code)]
+pub fn debug_impls(exp: &str) {
+    let file = syn::parse_file(exp).unwrap();
+    fn walk(items: &[Item], d: usize) {
+        for it in items {
+            match it {
+                Item::Impl(im) => eprintln!("{}impl trait={:?}", " ".repeat(d), im.trait_.as_ref().map(|t| t.1.to_token_stream().to_string())),
+                Item::Mod(m) => { eprintln!("{}mod {}", " ".repeat(d), m.ident); if let Some((_, its)) = &m.content { walk(its, d + 1); } }
+                _ => {}
+            }
+        }
+    }
+    walk(&file.items, 0);
 }
